@@ -28,7 +28,7 @@ def plan(tier, seed):
     for i in range(n):
         nl = int(rng.integers(0, 4))
         lead = [int(rng.integers(1, 4)) for _ in range(nl)]
-        mk = pick(['none', 'float-src', 'float-src', 'float-nosrc', 'bool-src', 'bool-nosrc', 'zero-src', 'zero-nosrc', 'partzero-src', 'partzero32-src', 'float32-src', 'zero32-nosrc'])
+        mk = pick(['none', 'float-src', 'float-src', 'float-nosrc', 'bool-src', 'bool-nosrc', 'zero-src', 'zero-nosrc', 'partzero-src', 'partzero32-src', 'float32-src', 'zero32-nosrc', 'floatunit-src', 'floatunit-nosrc'])
         layout = pick(['default', 'default', 'sensor', 'sensor+source', 'time'])
         cases.append(dict(lane='psd', lead=lead, D=int(rng.integers(1, 9)), T=int(rng.integers(1, 65)), K=int(rng.integers(1, 6)), mask=mk,
                           layout=layout, normalize=bool(rng.uniform() < 0.8), rs=[seed, 10, i]))
@@ -91,6 +91,9 @@ def run_psd(case, R):
         shp = (*lead, K, T) if src else (*lead, T)
         if mk.startswith('float'):
             M = rng.uniform(0, 1, size=shp) * 10 ** rng.uniform(-3, 3)
+            if mk.startswith('floatunit'):
+                # masks that are normalised already, or almost: sums over time within 1e-9 .. 1e-4 of one (but not one)
+                M = M / M.sum(-1, keepdims=True) * (1 + rng.choice([-1, 1], size=(*shp[:-1], 1)) * 10 ** rng.uniform(-9, -4, size=(*shp[:-1], 1)))
         elif mk.startswith('bool'):
             M = rng.uniform(size=shp) < 0.6
         elif mk.startswith('zero'):
